@@ -35,8 +35,8 @@ FoldOps(br, os, i) == IF i > Len(os) THEN [err |-> "", branch |-> br, at |-> 0]
 DeepCases == { LET r == FoldOps(<< >>, Chain(n), 1) IN
                [n |-> n, err |-> r.err, at |-> r.at, fin |-> IF r.err = "" THEN Finalize(r.branch).err ELSE "n/a"] : n \in {127, 128, 129} }
 \* Huffman: weights and the optimal cost sum(w * depth)
-HuffCost(ws) == LET ds == HuffDepths(ws) IN FoldLeft(LAMBDA a, b : a + b, 0, [i \in DOMAIN ws |-> ws[i] * (CHOOSE l \in ds : l[1] = i)[2]])
-HuffCases == { [ws |-> ws, cost |-> HuffCost(ws)] : ws \in UNION { [1..n -> 1..4] : n \in 1..5 } }
+HuffCost(ws) == LET ds == HuffDepths(ws) IN FoldLeft(LAMBDA a, b : WAdd(a, b), W(0), [i \in DOMAIN ws |-> WMul(ws[i], (CHOOSE l \in ds : l[1] = i)[2])])
+HuffCases == { [ws |-> ws, cost |-> HuffCost(ws)] : ws \in UNION { [1..n -> { W(k) : k \in 1..4 }] : n \in 1..5 } \cup UNION { [1..n -> BigWeights] : n \in 1..5 } }
 GInit == branch = << >> /\ ops = << >> /\ failed = ""
 GNext == UNCHANGED vars
 ASSUME ndJsonSerialize(IOEnv.OUT, SetToSeq(Cases))
